@@ -351,7 +351,7 @@ func runC07(c *core.Ctx, ck *Check) {
 					}
 				}
 			}
-			if n%5 == 4 {
+			if n%5 == 4 || n%5 == 2 {
 				// one whole generator cluster (a base with all its marker / revision / spelling / snapshot relatives)
 				var cl []string
 				fam := r.IntN(2) == 0
@@ -393,7 +393,11 @@ func runC07(c *core.Ctx, ck *Check) {
 				perms = permutations(len(list), 720, r)
 				perms = append(perms, identity(len(list)))
 			} else {
-				perms = append(permutations(len(list), c.Scale(6, 40), r), identity(len(list)))
+				np := c.Scale(6, 40)
+				if n%5 == 4 || n%5 == 2 { // whole-cluster lists: relatives of one base are all present, orders matter most
+					np = c.Scale(30, 120)
+				}
+				perms = append(permutations(len(list), np, r), identity(len(list)))
 			}
 			for pi, pm := range perms {
 				q := make([]string, len(list))
